@@ -129,9 +129,12 @@ COUNTER_KEYS = ['datapackage-rowcount', 'datapackage-bytes', 'datapackage-hash',
 
 @st.composite
 def counter_options(draw):
-    kind = draw(st.sampled_from(['default', 'default', 'renamed', 'dotted', 'some-none', 'mixed']))
+    kind = draw(st.sampled_from(['default', 'default', 'renamed', 'dotted', 'some-none', 'mixed', 'sizes-off']))
     if kind == 'default':
         return None
+    if kind == 'sizes-off':
+        # nothing asks for the size or the digest of the data files
+        return {'datapackage-bytes': None, 'resource-bytes': None, 'resource-hash': None}
     out = {}
     for i, k in enumerate(COUNTER_KEYS):
         choice = {'renamed': 'r', 'dotted': 'd', 'some-none': draw(st.sampled_from(['n', 'keep', 'keep'])),
